@@ -60,7 +60,7 @@ def _local_like(toks, name):
             continue                              # never touches an identifier after `.`); `..name` is a range bound
         if prev == ":" and prev2 == ":":
             return False
-        if nxt in ("(", "!"):
+        if nxt == "(" or (nxt == "!" and nxt2 in ("(", "[", "{")):      # a call or a macro (`x != 0` is neither)
             return False
         if nxt == ":" and nxt2 == ":":
             return False
@@ -359,7 +359,7 @@ class Unit:
                 self._baseline = {}
         return self._baseline
 
-    def generate(self, repo, probe=False, drop=(), inline=()):
+    def generate(self, repo, probe=False, drop=(), inline=(), shift=None):
         """returns (text, info) ; info lists functions under contract, rules fired, splice ids.
         drop: splice ids (proof hints) to leave out.
         inline: names of helper functions that are not part of the unit (an edit extracted them out of an item under contract):
@@ -369,6 +369,9 @@ class Unit:
         info = {"items": [], "splices": [], "alpha_renamed": {}, "dropped_hints": sorted(drop)}
         self._last_info = info      # R9h: what was inlined / refused stays readable when generation fails half-way
         self._drop = set(drop)
+        # hint relocation (driver, only on edited sources): {splice id: k} places a before/after hint k statements later (k > 0) or
+        # earlier (k < 0) than its anchor says; a hint is proof text that the verifier checks wherever it stands
+        self._shift = dict(shift or {})
         base = self._load_baseline()
         for kind, part in self.parts:
             if kind == "raw":
@@ -381,7 +384,7 @@ class Unit:
             src_text = it.text
             if inline and spec.kind in ("fn", "region"):
                 from . import autohelper
-                src_text = autohelper.inline_item(repo, spec.path, spec.container, it.text, list(inline), log, info, self.item_key(spec), region=(spec.kind == "region"), baseline=base.get(self.item_key(spec)))
+                src_text = autohelper.inline_item(repo, spec.path, spec.container, it.text, [n_ for n_ in inline if n_ not in self.config], log, info, self.item_key(spec), region=(spec.kind == "region"), baseline=base.get(self.item_key(spec)))
             # --- R9h end (below, `src_text` stands where `it.text` stood)
             # proof text is written against the baseline source; if the current source is the baseline with locals/parameters
             # consistently renamed, the unit's text for this item is alpha-renamed to follow it
@@ -699,6 +702,13 @@ class Unit:
                 h, hend = hits[nth - 1]
                 sid = sid_base + "/%s:%s#%d" % (kind, arg, nth)
                 pos = st[h].start if kind == "before" else st[hend].end
+                k_ = getattr(self, "_shift", {}).get(sid, 0)
+                if k_:
+                    pos2 = _shifted_pos(st, h, hend, kind, k_, body_open, body_close)
+                    if pos2 is None:
+                        raise UnitError("%s: cannot move the hint by %d statement(s)" % (sid, k_))
+                    pos = pos2
+                    info.setdefault("relocated", []).append("%s by %+d" % (sid, k_))
             if sid in getattr(self, "_drop", ()):
                 continue
             info["splices"].append(sid)
@@ -719,6 +729,80 @@ class Unit:
         outp.append(text[posn:])
         return "".join(outp), n_probe
 
+
+
+def _stmt_end(st, i, lo, hi):
+    """token index of the last token of the statement that starts at or contains token i (at the nesting level of i): the next `;`
+    at depth 0, or the `}` that closes a block-like statement (if/for/while/loop/match/unsafe/plain block) when what follows does
+    not continue the expression; None if the enclosing block ends first"""
+    depth = 0
+    j = i
+    while j < hi:
+        t = st[j]
+        if t.kind == "punct" and t.text in "([{":
+            c = match_close(st, j)
+            if t.text == "{" and depth == 0:
+                nxt = st[c + 1].text if c + 1 < hi else "}"
+                if nxt not in ("else", ".", "?", ";", ")", ",", "as", "=", "+", "-", "*", "/", "&", "|", "<", ">") :
+                    return c
+            j = c + 1
+            continue
+        if t.kind == "punct" and t.text in ")]}":
+            return None
+        if t.text == ";":
+            return j
+        j += 1
+    return None
+
+
+def _stmt_start_before(st, i, lo):
+    """token index of the first token of the statement that ends right before token i; None at the start of the block"""
+    j = i - 1
+    if j <= lo:
+        return None
+    if st[j].text == "{":
+        return None
+    # step over the statement's own terminator
+    if st[j].text == ";":
+        j -= 1
+    depth = 0
+    while j > lo:
+        t = st[j]
+        if t.kind == "punct" and t.text in ")]}":
+            depth += 1
+        elif t.kind == "punct" and t.text in "([{":
+            if depth == 0:
+                return j + 1
+            depth -= 1
+        elif t.text == ";" and depth == 0:
+            return j + 1
+        j -= 1
+    return None
+
+
+def _shifted_pos(st, h, hend, kind, k, body_open, body_close):
+    """character position for a before/after hint moved k statements; None if it cannot be moved that far inside its block"""
+    if k > 0:
+        # first statement to step over: for `before` the anchored statement itself, for `after` the one following it
+        e = hend if st[hend].text == ";" else _stmt_end(st, hend, body_open, body_close)
+        if e is None:
+            return None
+        n = k if kind == "after" else k - 1
+        for _ in range(n):
+            e2 = _stmt_end(st, e + 1, body_open, body_close) if e + 1 < body_close else None
+            if e2 is None:
+                return None
+            e = e2
+        return st[e].end
+    k = -k
+    b = h
+    n = k - 1 if kind == "after" else k
+    for _ in range(n):
+        b2 = _stmt_start_before(st, b, body_open)
+        if b2 is None:
+            return None
+        b = b2
+    return st[b].start
 
 
 def _lev(a, b):
